@@ -21,7 +21,13 @@ func refDiffFields(a, b *sbom.Node) []string {
 	for i := 0; i < fds.Len(); i++ {
 		fd := fds.Get(i)
 		if hx.RefSetKey(a.ProtoReflect(), fd, true) != hx.RefSetKey(b.ProtoReflect(), fd, true) {
-			out = append(out, string(fd.Name()))
+			name := string(fd.Name())
+			if oo := fd.ContainingOneof(); oo != nil && !oo.IsSynthetic() {
+				name = string(oo.Name()) // the alternative forms of a oneof are one attribute
+			}
+			if !contains(out, name) {
+				out = append(out, name)
+			}
 		}
 	}
 	sort.Strings(out)
@@ -273,11 +279,19 @@ func c14Property(t *rapid.T) {
 		fds := side.ProtoReflect().Descriptor().Fields()
 		for i := 0; i < fds.Len(); i++ {
 			fd := fds.Get(i)
-			if !hx.FieldEmpty(side.ProtoReflect(), fd) && !contains(want, string(fd.Name())) {
+			if !hx.FieldEmpty(side.ProtoReflect(), fd) && !contains(want, attrName(fd)) {
 				t.Fatalf("Diff reports attribute %s although it does not differ%s", fd.Name(), desc())
 			}
 		}
 	}
+}
+
+// attrName: the attribute a field belongs to (the alternative forms of a oneof are one attribute).
+func attrName(fd protoreflect.FieldDescriptor) string {
+	if oo := fd.ContainingOneof(); oo != nil && !oo.IsSynthetic() {
+		return string(oo.Name())
+	}
+	return string(fd.Name())
 }
 
 func contains(xs []string, s string) bool {
